@@ -1,6 +1,7 @@
 package sim
 
 import (
+	"os"
 	"encoding/json"
 	"fmt"
 	"strings"
@@ -954,6 +955,38 @@ func (s *Sim) errorJustified(c *Client, rid string, res *Res, v *Variant) bool {
 	return false
 }
 
+// firmlyHeld: rid can be reached from a direct subscription without passing
+// through a deleted resource or one with an error entry over its data.
+func (c *Client) firmlyHeld(rid string) bool {
+	seen := map[string]bool{}
+	var visit func(x string) bool
+	visit = func(x string) bool {
+		if x == rid {
+			return true
+		}
+		if seen[x] {
+			return false
+		}
+		seen[x] = true
+		r := c.Cache[x]
+		if r == nil || r.Ambiguous || r.Deleted {
+			return false
+		}
+		for _, y := range refsOf(r) {
+			if visit(y) {
+				return true
+			}
+		}
+		return false
+	}
+	for _, root := range sortedKeys(c.Direct) {
+		if c.Direct[root] > 0 && visit(root) {
+			return true
+		}
+	}
+	return false
+}
+
 // checkIntervals is C03 over every holding interval.
 func (s *Sim) checkIntervals(quiescent bool) {
 	for _, c := range s.Clients {
@@ -971,6 +1004,14 @@ func (s *Sim) checkIntervals(quiescent bool) {
 			open := !iv.Closed && c.State == "open" && !c.eofSeen()
 			if !iv.Closed && !quiescent {
 				continue
+			}
+			if open && quiescent && !c.firmlyHeld(iv.RID) {
+				// held only through a resource the client knows to be deleted, or for
+				// which it was sent an error entry while it had data: the gateway
+				// follows no references of such a resource (see checkConvergence), so
+				// the events need not reach the end of the stream
+				s.stat("exempt.held_through_deleted_or_error_entry_only", 1)
+				open = false
 			}
 			iv.checked = true
 			s.checkInterval(c, iv, open && quiescent)
@@ -1095,6 +1136,12 @@ func (s *Sim) checkInterval(c *Client, iv *Interval, mustReachTail bool) {
 		}
 	}
 	c.ivFail[iv.RID] = lastShape
+	if os.Getenv("SIM_DEBUG_IV") != "" {
+		fmt.Fprintf(dbgOut(), "DEBUGIV %s closed=%v why=%s end=%d mustTail=%v cache=%v direct=%v ivs=%d\n", iv.RID, iv.Closed, iv.CloseWhy, iv.EndSeq, mustReachTail, sortedKeys(c.Cache), c.Direct, len(c.Ivs))
+		for _, o := range c.Ivs {
+			fmt.Fprintf(dbgOut(), "   iv %s start=%d closed=%v why=%s events=%d\n", o.RID, o.StartStep, o.Closed, o.CloseWhy, len(o.Events))
+		}
+	}
 	c.violate("C03", clause, lastShape, "client %s, resource %s (handed over at step %d): %s", c.Name, iv.RID, iv.StartStep, lastErr)
 }
 
@@ -1322,4 +1369,12 @@ func (s *Sim) nonTrivial() bool {
 		return s.Probes["reset_throttle_saturated"]+s.Probes["reference_throttle_saturated"] > 0
 	}
 	return st["frames_received"] > 0 || st["obs"] > 20
+}
+
+func dbgOut() *os.File {
+	f, err := os.OpenFile("/tmp/debugiv.log", os.O_CREATE|os.O_WRONLY|os.O_APPEND, 0o644)
+	if err != nil {
+		return os.Stderr
+	}
+	return f
 }
